@@ -30,6 +30,11 @@ class OverBudget(Inconclusive):
     pass
 
 
+class SolverUnknown(OverBudget):
+    """a single query exceeded the solver's time limit: the case is not decided (never a pass for that case)"""
+    pass
+
+
 # ------------------------------------------------------------------------------------------------
 # values
 
@@ -394,7 +399,7 @@ class Executor:
         r = self.solver.check(*a)
         self.solver_time += time.time() - t
         if r == z3.unknown:
-            raise Inconclusive('solver returned unknown: ' + self.solver.reason_unknown())
+            raise SolverUnknown('solver returned unknown: ' + self.solver.reason_unknown())
         return r == z3.sat
 
     def model(self, conds):
@@ -407,7 +412,7 @@ class Executor:
         m = self.solver.model() if r == z3.sat else None
         self.solver_time += time.time() - t
         if r == z3.unknown:
-            raise Inconclusive('solver returned unknown: ' + self.solver.reason_unknown())
+            raise SolverUnknown('solver returned unknown: ' + self.solver.reason_unknown())
         return m
 
     def holds(self, m, cond):
